@@ -135,7 +135,7 @@ def spec(tier, seed):
             _ => assert!(false),
         }
         std::mem::forget(f);
-        """, unwind=3, cost=60, core=False,
+        """, unwind=3, cost=60, core=False, tier="thorough",
           bounds="all operator pairs with rank(l) > rank(r), literal leaves",
           functions=["rusty_parser::expr::types::ExpressionPosTrait::flip_binary", "rusty_parser::expr::types::ExpressionPosTrait::binary_expr"])
 
@@ -190,11 +190,14 @@ def spec(tier, seed):
           functions=["rusty_parser::expr::integer_or_long_literal::convert_hex_digit",
                      "rusty_parser::expr::integer_or_long_literal::convert_oct_digit"])
 
+    # (probed: process_dec on a decimal literal of n symbolic digits - 1 digit 27 s, 4 digits 208 s, 5 and more digits CBMC out of
+    # memory at 16 GB (String / core::fmt / str::parse); the type boundaries sit at 5 and 10 digits, so decimal literals stay outside.)
+
     bv = b.file("rusty_bit_vec/src/lib.rs", "rusty_bit_vec", "")
     for n in range(1, 10):
-        digits_harness(b, bv, "hex", n, "quick" if n <= 5 else "thorough")
+        digits_harness(b, bv, "hex", n, "quick")
     for n in range(1, 13):
-        digits_harness(b, bv, "oct", n, "quick" if n <= 6 else "thorough")
+        digits_harness(b, bv, "oct", n, "quick")
     b.add(bv, "vk_c10_all_zero_digits", """
         let bv = BitVec::new();                      // &H0, &O000: every digit stripped
         match bv.convert_to_int_or_long_expr() {
@@ -205,7 +208,7 @@ def spec(tier, seed):
 
     return b.build(
         tier,
-        bounds="operator pairs: all 169 + 2 x 13 (exhaustive); hex literals of 1..5 digits (quick) / 1..9 (thorough), octal 1..6 / 1..12, "
+        bounds="operator pairs: all 169 + 2 x 13 (exhaustive); hex literals of 1..9 digits, octal 1..12 (both boundaries: 16 and 32 significant bits), "
                "one instance per digit count, digits symbolic",
         outside="the rotation driver (binary_expr / flip_binary / apply_unary_priority_order recursion over deeper trees) and literal folding "
                 "after unary minus; decimal and fraction literals (Token::to_string, str::parse)",
